@@ -27,7 +27,9 @@ MANIFEST = {
     "text": "Proof: an invocation f(a1..an) evaluates to f's body in a frame binding exactly p_i to the call-site value of a_i "
             "(for as many parameters as there are arguments), and evaluating in a frame is evaluating the body with every bound "
             "$p replaced by its value in an EMPTY frame — so enclosing frames, equal parameter names in other macros and nesting "
-            "depth cannot interfere (exact equality of results, all depths, all definition sets); more fuel never changes a result.",
+            "depth cannot interfere (exact equality of results, all depths, all definition sets); more fuel never changes a result. TEXT "
+            "(C11_text): `%def name(params)` / body / `%end` with any blanks and line ends parses to the definition node with exactly the "
+            "declared name, the parameters in order and the body's expression (calls, $variables, literals, labels, parentheses).",
     "note": "Trusted: Lean kernel; Asm/Eval.lean (eval_with_context Macro / Variable arms as repaired: arguments evaluated at the "
             "call site) tied by the differential run through push32 f(...); the pre-declaration of macros (definitions after use) "
             "is part of the assembler model (declareMacros).",
